@@ -213,10 +213,13 @@ type linEnv struct {
 	alias map[string]string
 	// prefix distinguishes the atoms standing for the unknown locals of an inlined callee from the caller's
 	prefix string
+	// onCond, when set, is called with the state of the path each time the condition of an if statement is about to be
+	// evaluated (the visit callback of linWalk only sees the statements that are not branches)
+	onCond func(p linPath, cond ast.Expr)
 }
 
 func (e *linEnv) clone() *linEnv {
-	n := &linEnv{info: e.info, vars: map[types.Object]linForm{}, defs: e.defs, atoms: e.atoms, lens: e.lens, elems: map[string]linForm{}, decl: e.decl, alias: e.alias, prefix: e.prefix}
+	n := &linEnv{info: e.info, vars: map[types.Object]linForm{}, defs: e.defs, atoms: e.atoms, lens: e.lens, elems: map[string]linForm{}, decl: e.decl, alias: e.alias, prefix: e.prefix, onCond: e.onCond}
 	n.facts = append(linSys{}, e.facts...)
 	for k, v := range e.vars {
 		n.vars[k] = v
@@ -629,6 +632,9 @@ func linWalk(paths []linPath, list []ast.Stmt, visit func(p linPath, st ast.Stmt
 			var out []linPath
 			for _, p := range paths {
 				p.env.cur = p.sys
+				if p.env.onCond != nil {
+					p.env.onCond(p, x.Cond)
+				}
 				for _, cs := range p.env.cond(x.Cond, false) {
 					np := linPath{env: p.env.clone(), sys: append(append(linSys{}, p.sys...), cs...)}
 					if np.known().infeasible() {
